@@ -178,6 +178,15 @@ func (c *Crew) SetMachine(ctx context.Context, mid string, src *crew.SpecSource,
 		}
 
 		c.Machines[mid] = m
+
+		// If this machine was deleted earlier while the current message
+		// is being processed, the pending change must describe the new
+		// machine, not the deletion (which would be all that gets
+		// reported otherwise).
+		if ch, pending := c.changed[mid]; pending && ch.Deleted {
+			ch.Deleted = false
+			ch.State = m.State.Copy()
+		}
 	}
 
 	if src != nil {
